@@ -32,6 +32,7 @@ def main():
     ap.add_argument("--only-kinds", default="")
     ap.add_argument("--resume", action="store_true")
     ap.add_argument("--recheck", action="store_true", help="re-run only the checks on the survivors recorded in <out>/survivors.jsonl (after the rules changed)")
+    ap.add_argument("--recheck-caught", action="store_true", help="re-run only the checks on the mutants <out>/results.jsonl records as caught by a check; those that survive now are added to survivors.jsonl")
     a = ap.parse_args()
     os.makedirs(a.out, exist_ok=True)
     files = a.files.split(",")
@@ -50,6 +51,13 @@ def main():
         resf = os.path.join(a.out, "recheck.jsonl")
         if os.path.exists(resf):
             os.remove(resf)
+    if a.recheck_caught:
+        keep = set(json.loads(l)["id"] for l in open(os.path.join(a.out, "results.jsonl")) if json.loads(l)["status"] == "checks")
+        muts = [m for m in muts if m["id"] in keep]
+        resf = os.path.join(a.out, "recheck_caught.jsonl")
+        if os.path.exists(resf):
+            os.remove(resf)
+        a.recheck = True
     if a.resume and os.path.exists(resf):
         for l in open(resf):
             done.add(json.loads(l)["id"])
@@ -135,6 +143,12 @@ def main():
         c[r["status"]] += 1
         if r["status"] == "survived":
             surv.append(r)
+    if a.recheck_caught:
+        with open(os.path.join(a.out, "survivors.jsonl"), "a") as f:
+            for r in surv:
+                f.write(json.dumps(r) + "\n")
+        print(dict(c), "newly surviving:", [r["id"] for r in surv])
+        return
     json.dump(dict(c), open(os.path.join(a.out, "summary.json"), "w"), indent=1)
     with open(os.path.join(a.out, "survivors.jsonl"), "w") as f:
         for r in sorted(surv, key=lambda r: (r["file"], r["line"])):
